@@ -54,6 +54,11 @@ GROUPS = {
     'T': [('bid128_noncomp.rs', 'bid128_total_order'), ('bid128_noncomp.rs', 'bid128_total_order_mag')],
     # I: further single routines with a complete theorem (templates for their families)
     'I': [('bid128_frexp.rs', 'bid128_frexp')],
+    # N: next up / down (complete theorems); NP: next after / toward (PARTIAL theorems: NaN operands only, names end in _partial)
+    'N': [('bid128_next.rs', 'bid128_nextup'), ('bid128_next.rs', 'bid128_nextdown')],
+    'NP': [('bid128_next.rs', 'bid128_nextafter'), ('bid128_nexttoward.rs', 'bid128_nexttoward')],
+    # J: to-integer conversions (so far bid128_to_int32_rnint with a PARTIAL theorem; Impl/ImplRound.v holds the shared facts)
+    'J': [('bid128_to_int32.rs', 'bid128_to_int32_rnint')],
     # H: the shared multi-word helpers of bid_internal.rs on their own (Impl/ImplHelpProofs.v: "helper <name> is exact")
     'H': [('bid_internal.rs', n) for n in HELPERS],
 }
@@ -62,7 +67,8 @@ GROUPS = {
 # mention these three helpers
 _PACK_SUPPORT = [('bid_internal.rs', '__mul_64x128_full'), ('bid_internal.rs', '__mul_128x128_high'),
                  ('bid_internal.rs', '__sub_128_128')]
-GROUP_SUPPORT = {'D': _PACK_SUPPORT, 'F': _PACK_SUPPORT, 'H': _PACK_SUPPORT}
+GROUP_SUPPORT = {'D': _PACK_SUPPORT, 'F': _PACK_SUPPORT, 'H': _PACK_SUPPORT,
+                 'J': [('bid_internal.rs', '__mul_64x128_to_192')]}     # ImplMul.v (imported by ImplRound.v) mentions it
 # literal fuel bounds of the loops: (function, index of the loop in the function, counted from 1) -> iterations + 1.
 # bid_get_BID128: the padding loop multiplies a coefficient below 10^33 by ten while it stays below 10^33: at most 33 times
 # for a non-zero coefficient; for coefficient 0 it runs once per unit of exponent excess, which the guard before the loop
